@@ -79,7 +79,10 @@ def _intify_keys(d):
     assert isinstance(d, dict)
     out = {}
     for k, v in d.items():
-        if isinstance(k, str) and (k.isdigit() or (k[:1] == '-' and k[1:].isdigit())):
+        # NOTE: ASCII digits only (str.isdigit() also accepts characters like '²', which int()
+        # rejects).
+        if isinstance(k, str) and k.isascii() and (
+                k.isdigit() or (k[:1] == '-' and k[1:].isdigit())):
             k = int(k)
         out[k] = v
     return out
